@@ -416,6 +416,8 @@ class EventDispatcher(object):
                 )
             )
             message.acknowledge(multiple=False)
+            # The dropped message must not stay in unacknowledged_messages.
+            self.unacknowledged_messages.pop(message.message_id, None)
 
     def acknowledge(self, id):
         """
